@@ -23,6 +23,13 @@ RawChunk(dev, chip, flags, id, declared, body) ==
 
 Body(len, declared) == [i \in 1..len |-> IF i <= declared THEN 7 + i ELSE 0]
 
+Perms4 == {p \in [1..4 -> 1..4] : \A i, j \in 1..4 : i # j => p[i] # p[j]}
+PermCode(p) == 64 * (p[1] - 1) + 16 * (p[2] - 1) + 4 * (p[3] - 1) + (p[4] - 1)
+PermOf(c) == <<((c \div 64) % 4) + 1, ((c \div 16) % 4) + 1, ((c \div 4) % 4) + 1, (c % 4) + 1>>
+PermBase == RawChunk(GoodDev, 3, 1, 5, 4, Body(4, 4))
+WordAt(w) == IF w = 0 THEN 16 ELSE Len(PermBase) - 4          \* 0-based offset of the word
+PermWord(b, at, p) == [k \in 1..Len(b) |-> IF k > at /\ k <= at + 4 THEN b[at + p[k - at]] ELSE b[k]]
+
 TableCells ==
      {[k |-> "len", a |-> blen, b |-> d] : blen \in {0, 3, 4, 5, 8, 12}, d \in 0..14}
   \cup {[k |-> "nzpad", a |-> 4, b |-> d] : d \in 1..3}
@@ -31,6 +38,9 @@ TableCells ==
   \cup {[k |-> "dev", a |-> x, b |-> 0] : x \in {0, 1}}
   \cup {[k |-> "hcrc", a |-> bit, b |-> 0] : bit \in 0..31}
   \cup {[k |-> "pcrc", a |-> bit, b |-> 0] : bit \in 0..31}
+  \* every byte permutation of each stored CRC word (a = 0 header, 1 payload; b = code of
+  \* the permutation) - added after seed C03-c, which also accepted the byte-reversed word
+  \cup {[k |-> "crcperm", a |-> w, b |-> PermCode(p)] : w \in {0, 1}, p \in Perms4}
 
 XorBit(b, pos) == [b EXCEPT ![(pos \div 8) + 1] = @ ^^ (2 ^ (pos % 8))]
 
@@ -42,6 +52,7 @@ TableBytes(c) ==
     [] c.k = "dev"   -> RawChunk(IF c.a = 0 THEN BadDev ELSE GoodDev, 0, 0, 0, 4, Body(4, 4))
     [] c.k = "hcrc"  -> XorBit(RawChunk(GoodDev, 0, 0, 0, 4, Body(4, 4)), 128 + c.a)
     [] c.k = "pcrc"  -> XorBit(RawChunk(GoodDev, 0, 0, 0, 4, Body(4, 4)), 192 + c.a)
+    [] c.k = "crcperm" -> PermWord(PermBase, WordAt(c.a), PermOf(c.b))
 
 \* the statement, over the abstract cell
 TableOk(c) ==
@@ -52,6 +63,7 @@ TableOk(c) ==
     [] c.k = "dev"   -> c.a = 1
     [] c.k = "hcrc"  -> FALSE
     [] c.k = "pcrc"  -> FALSE
+    [] c.k = "crcperm" -> PermWord(PermBase, WordAt(c.a), PermOf(c.b)) = PermBase
 
 \* ---- (b) faults ------------------------------------------------------------
 Bases == IF Tier = "quick"
